@@ -287,7 +287,13 @@ func (r *renderState) preInline(source []byte, inline *Inline) bool {
 		r.dst = escapeHTML(r.dst, spanSlice(source, inline.Span()))
 		return false
 	case CharacterReferenceKind:
-		r.dst = append(r.dst, spanSlice(source, inline.Span())...)
+		ref := spanSlice(source, inline.Span())
+		if text := characterReferenceText(ref); len(text) == 2 && text[0] == 0xc2 && text[1] < 0xa0 {
+			// HTML reads references to U+0080 through U+009F as windows-1252.
+			r.dst = append(r.dst, text...)
+		} else {
+			r.dst = append(r.dst, ref...)
+		}
 		return false
 	case RawHTMLKind:
 		if !r.IgnoreRaw {
